@@ -238,6 +238,8 @@ def check_format_case(ctx: Ctx, c: Dict[str, Any], idx: int, scratch: str, dtype
         for compress in (True, False):
             for fmt in fmts:
                 for writer in writers:
+                    if fmt in ("nii", "niigz") and C > 1 and n[-1] == 1:
+                        continue  # NIfTI vector images drop trailing axes of size one (NiftiRealDim): not a round trip of the grid by the format's own rule
                     sig = dict(part="format", fmt=fmt, D=D, multi=C > 1, writer=writer)
                     path = os.path.join(scratch, f"f{idx}_{dtype}_{int(compress)}_{writer}{EXT[fmt]}")
                     case = dict(case=c, dtype=dtype, compress=compress, fmt=fmt, writer=writer, idx=idx)
@@ -350,12 +352,20 @@ def replay_chain(ctx: Ctx, c: Dict[str, Any], filevec: Dict[str, Any], scratch: 
             if a == "write":
                 last_path = os.path.join(scratch, f"c{cid}_{k}{EXT[st['f']]}")
                 if st["who"] == "deepali":
-                    obj.write(last_path, compress=bool(st["compress"]))
+                    if (cid + k) % 3 == 0:  # the URI form of the same entry point
+                        obj.to_uri(("file://" + last_path) if (cid + k) % 2 else last_path, compress=bool(st["compress"]))
+                    else:
+                        obj.write(last_path, compress=bool(st["compress"]))
                 else:
                     sitk.WriteImage(obj, last_path, bool(st["compress"]))
             elif a == "read":
                 if st["who"] == "deepali":
-                    obj = (FlowField if flow else Image).read(last_path, align_corners=ac)
+                    if (cid + k) % 3 == 0:
+                        obj = (FlowField if flow else Image).from_uri(last_path, align_corners=ac)
+                        if flow:
+                            obj = FlowField.from_image(obj, axes=Axes.WORLD) if not isinstance(obj, FlowField) else obj
+                    else:
+                        obj = (FlowField if flow else Image).read(last_path, align_corners=ac)
                 else:
                     obj = sitk.ReadImage(last_path)
                 cur_axes = "world" if flow else "none"
